@@ -55,7 +55,6 @@ MainEnv(tdef, l) ==
   IN [n \in {"k", "v", "t.k", "t.v", "input"} |->
         CASE n \in {"k", "t.k"} -> r[2] [] n \in {"v", "t.v"} -> r[3] [] OTHER -> TextV(LineText(l))]
 
-JoinedRow(l) == RowOf("plain", l)      \* u(k, w): same line format, column v is called w
 MergeEnv(env, s) ==        \* s = <<k, w>> of the joined side; a clashing name stays with the queried table
   [n \in DOMAIN env \cup {"w", "u.k", "u.w"} |->
      CASE n = "u.k" -> s[1] [] n \in {"w", "u.w"} -> s[2] [] OTHER -> env[n]]
@@ -88,6 +87,16 @@ VARIABLES tdef, q, files, jlines, mode, intr,      \* the environment's choices 
 
 cvars == <<tdef, q, files, jlines, mode, intr>>
 vars == <<cvars, pc, running, ji, jidx, fi, li, hooks, consumed, seen, nout, groups, printed, steps, status, closed>>
+
+\* u(k, w): same line format, column v is called w.  Table variant "numjoin": w is REAL and the join is ON t.v = u.w
+\* (an INT key looked up among REAL keys: equal numbers must meet whatever their type)
+ToReal(v) == IF IsNull(v) THEN Null
+             ELSE IF v.b = 0 THEN RealV(v.i, 1)
+             ELSE IF v.b = 3 THEN (IF v.i = 2 THEN P53b ELSE IF v.i \in {0, 1} THEN P53 ELSE [t |-> "unk"])    \* 2^53 + 1 is not a REAL: it reads as 2^53
+             ELSE [t |-> "unk"]
+JoinedRow(l) == LET r == RowOf("plain", l) IN IF tdef = "numjoin" THEN <<r[1], r[2], ToReal(r[3])>> ELSE r
+JKeyMain(env) == IF tdef = "numjoin" THEN env["v"] ELSE env["k"]
+JKeyJoined(s) == IF tdef = "numjoin" THEN s[2] ELSE s[1]
 
 HasLimit == q.limit # NoLimit
 LimitReached == HasLimit /\ nout >= q.limit
@@ -223,7 +232,7 @@ Bucket(key) == LET hit == SelectSeq(jidx, LAMBDA b : EqB(b.key, key)) IN IF hit 
 
 JoinedEnvs(env) ==      \* the environments one admitted row fans out to
   IF q.join = "none" THEN <<env>>
-  ELSE LET key == env["k"]
+  ELSE LET key == JKeyMain(env)
            partners == IF IsNull(key) /\ "JoinNullKeys" \notin Dev THEN <<>> ELSE Bucket(key)
        IN IF partners # <<>> THEN [i \in 1..Len(partners) |-> MergeEnv(env, partners[i])]
           ELSE IF q.join = "outer" /\ ~IsAgg THEN <<MergeEnv(env, <<Null, Null>>)>>
@@ -250,7 +259,7 @@ Init ==
   /\ closed = ~Lazy
   /\ jlines \in (IF q.join = "none" THEN {<<>>} ELSE JoinLineSets)
   /\ mode \in Modes
-  /\ mode = "incr" => (q.limit = NoLimit /\ q.join = "none")
+  /\ mode = "incr" => q.limit = NoLimit                     \* with a join: ExecutionEngine::with_executed_joined_table, then line by line
   /\ mode = "follow" => (q.join = "none" /\ (IsAgg => q.limit = NoLimit) /\ Len(files) = 1)      \* FollowFileExecutor: one file, no join
   /\ intr \in InterruptPoints
   /\ (intr.at = "join") => q.join # "none"
@@ -276,11 +285,12 @@ LoadJoinLine ==
                 ELSE LET r == JoinedRow(jlines[ji + 1])
                      IN /\ ji' = ji + 1
                         /\ pc' = "loadjoin"
-                        /\ jidx' = IF ~r[1] THEN jidx
-                                   ELSE IF \E i \in 1..Len(jidx) : EqB(jidx[i].key, r[2])
-                                        THEN [i \in 1..Len(jidx) |-> IF EqB(jidx[i].key, r[2])
-                                                                      THEN [key |-> jidx[i].key, rows |-> Append(jidx[i].rows, <<r[2], r[3]>>)] ELSE jidx[i]]
-                                        ELSE Append(jidx, [key |-> r[2], rows |-> <<<<r[2], r[3]>>>>])
+                        /\ LET jk == JKeyJoined(<<r[2], r[3]>>)
+                           IN jidx' = IF ~r[1] THEN jidx
+                                      ELSE IF \E i \in 1..Len(jidx) : EqB(jidx[i].key, jk)
+                                           THEN [i \in 1..Len(jidx) |-> IF EqB(jidx[i].key, jk)
+                                                                         THEN [key |-> jidx[i].key, rows |-> Append(jidx[i].rows, <<r[2], r[3]>>)] ELSE jidx[i]]
+                                           ELSE Append(jidx, [key |-> jk, rows |-> <<<<r[2], r[3]>>>>])
   /\ UNCHANGED <<cvars, fi, li, hooks, consumed, seen, nout, groups, printed, steps, status>>
 
 \* SELECT on the environments of one line: <<status, rows, seen'>>
@@ -423,7 +433,7 @@ SemEnvs(ls, jl) ==
       go(rs, acc) ==
         IF rs = <<>> THEN acc
         ELSE LET r == Head(rs)
-                 ps == SelectSeq(jr, LAMBDA s : ~IsNull(r["k"]) /\ ~IsNull(s[1]) /\ EqB(r["k"], s[1]))
+                 ps == SelectSeq(jr, LAMBDA s : ~IsNull(JKeyMain(r)) /\ ~IsNull(JKeyJoined(s)) /\ EqB(JKeyMain(r), JKeyJoined(s)))
              IN IF ps # <<>> THEN go(Tail(rs), acc \o [i \in 1..Len(ps) |-> MergeEnv(r, ps[i])])
                 ELSE IF q.join = "outer" /\ ~IsAgg THEN go(Tail(rs), Append(acc, MergeEnv(r, <<Null, Null>>)))
                 ELSE go(Tail(rs), acc)
@@ -498,7 +508,9 @@ PermLaw ==
          ref == AggTable(q, SemEnvs(ls, jlines))
      IN \A p \in Permutations(1..Len(ls)) :
           LET t == AggTable(q, SemEnvs([i \in 1..Len(ls) |-> ls[p[i]]], jlines))
-          IN (KnownSt(ref.st) /\ KnownSt(t.st) /\ ref.st = "ok" /\ t.st = "ok") => t.recs = ref.recs
+          IN (KnownSt(ref.st) /\ KnownSt(t.st) /\ ref.st = "ok" /\ t.st = "ok") =>
+               \* the same table up to value equality (-0.0 and 0.0, or 1 and 1.0, are the same value whichever arrived first)
+               (Len(t.recs) = Len(ref.recs) /\ \A i \in 1..Len(ref.recs) : TupleEq(t.recs[i], ref.recs[i]))
 \* the table over x \o y is the key-wise combination of the tables over x and over y, for the statement
 \*   SELECT k, COUNT(*), COUNT(v), SUM(v), MIN(v), MAX(v) ... GROUP BY k   (rows <<k, n, c, s, lo, hi>>)
 NullAdd(a, b) == IF IsNull(a) THEN b ELSE IF IsNull(b) THEN a ELSE ArithV("+", a, b).v
